@@ -395,7 +395,7 @@ type DefaultServerDispatcher struct {
 	readyForDispatch    chan string
 	pendingRequestState ServerState
 	timeout             time.Duration
-	timerC              chan string
+	timerC              chan timeoutEvent
 	running             bool
 	stoppedC            chan struct{}
 	onRequestCancel     CanceledRequestHandler
@@ -410,6 +410,12 @@ type CanceledRequestHandler func(clientID string, requestID string, request ocpp
 type clientTimeoutContext struct {
 	ctx    context.Context
 	cancel func()
+}
+
+// timeoutEvent notifies the message pump that the timeout context of a request sent to a client expired.
+type timeoutEvent struct {
+	clientID string
+	ctx      context.Context
 }
 
 func (c clientTimeoutContext) isActive() bool {
@@ -432,7 +438,7 @@ func (d *DefaultServerDispatcher) Start() {
 	d.mutex.Lock()
 	defer d.mutex.Unlock()
 	d.requestChannel = make(chan string, 20)
-	d.timerC = make(chan string, 10)
+	d.timerC = make(chan timeoutEvent, 10)
 	d.stoppedC = make(chan struct{}, 1)
 	d.running = true
 	go d.messagePump()
@@ -549,14 +555,20 @@ func (d *DefaultServerDispatcher) messagePump() {
 				// If there is no active context, the client is ready to transmit
 				rdy = !clientCtx.isActive()
 			}
-		case clientID, ok = <-d.timerC:
+		case ev, open := <-d.timerC:
 			// Timeout elapsed
-			if !ok {
+			if !open {
+				continue
+			}
+			clientID = ev.clientID
+			clientCtx = clientContextMap[clientID]
+			if clientCtx.ctx != ev.ctx {
+				// The expired context is not the current one of this client: the request it was armed for was concluded
+				// in the meantime, and whatever is pending now has a timeout of its own.
 				continue
 			}
 			// Canceling timeout context
 			log.Debugf("timeout for client %v, canceling message", clientID)
-			clientCtx = clientContextMap[clientID]
 			if clientCtx.isActive() {
 				clientCtx.cancel()
 				clientContextMap[clientID] = clientTimeoutContext{}
@@ -657,7 +669,7 @@ func (d *DefaultServerDispatcher) waitForTimeout(clientID string, clientCtx clie
 			d.mutex.RLock()
 			defer d.mutex.RUnlock()
 			if d.running {
-				d.timerC <- clientID
+				d.timerC <- timeoutEvent{clientID: clientID, ctx: clientCtx.ctx}
 			}
 		} else {
 			log.Debugf("timeout canceled for %s", clientID)
